@@ -258,3 +258,77 @@ pub fn header_program(rng: &mut Rng) -> (String, Vec<u8>) {
   }
   (what.join("; "), out)
 }
+
+/// the multi-order-map reader beside its byte-level model (Model/FitsCodec.v mom_read): same error kind,
+/// or - when the model decodes the rows - the MOC the selection returns on those rows
+pub fn compare_reader_mom(rep: &mut Report, orc: &mut Oracle, bytes: &[u8], origin: &str, what: &str) -> bool {
+  use moc::deser::fits::multiordermap::from_fits_multiordermap;
+  use moc::elem::valuedcell::valued_cells_to_moc_with_opt;
+  if bytes.len() >= 2 && bytes[0] == 0x1f && bytes[1] == 0x8b {
+    return true; // gzip magic: the implementation would inflate the stream first
+  }
+  rep.evaluations += 1;
+  let h: String = if bytes.is_empty() { "-".to_string() } else { bytes.iter().map(|x| format!("{:02x}", x)).collect() };
+  let model = orc.ask(&format!("MOMR {}", h));
+  let (from, to, asc, strict, no_split, rev) = (0.0, 0.9, false, true, false, false);
+  let b = bytes.to_vec();
+  let got = catch(move || {
+    from_fits_multiordermap(std::io::BufReader::new(Cursor::new(b)), from, to, asc, strict, no_split, rev)
+      .map(|m| (m.depth_max(), m.moc_ranges().iter().map(|x| (x.start, x.end)).collect::<Vec<(u64, u64)>>()))
+      .map_err(|e| {
+        let d = format!("{:?}", e);
+        d.split(|c: char| !c.is_alphanumeric()).next().unwrap_or("").to_string()
+      })
+  });
+  let key = model.split_whitespace().take(2).collect::<Vec<_>>().join(" ");
+  rep.count(&format!("mom-reader:{}:{}", origin, if model.starts_with("OK") { "OK".to_string() } else { key }));
+  let shown = format!("MOMR {}... ({} bytes) # origin={} mutation={}", h.chars().take(300).collect::<String>(), bytes.len(), origin, what);
+  let got = match got {
+    Err(p) => {
+      rep.violation_c(&format!("from_fits_multiordermap does not return a value: {}", p), &format!("MOMR {} ({} bytes) # origin={} mutation={}", h, bytes.len(), origin, what), &p, &model.chars().take(200).collect::<String>(), "C12 (decoders are total)", "");
+      return false;
+    }
+    Ok(g) => g,
+  };
+  let corr = "src/deser/fits/multiordermap.rs MultiOrderMapIterator == Model/FitsCodec.v mom_read";
+  if let Some(kind) = model.strip_prefix("ERR ") {
+    if got != Err(kind.to_string()) {
+      rep.corr_break("from_fits_multiordermap differs from the byte-level model of the reader (error kind)", &shown, &format!("{:?}", got.map(|x| x.0)), &model, corr);
+      return false;
+    }
+    return true;
+  }
+  // OK depth n (uniq bits)*
+  let t: Vec<&str> = model.split_whitespace().collect();
+  if t.len() < 3 || t[0] != "OK" {
+    rep.violation("oracle-error", &shown, "", &model, "internal");
+    return false;
+  }
+  let dm: u8 = t[1].parse().unwrap_or(0);
+  let n: usize = t[2].parse().unwrap_or(0);
+  let apc = (std::f64::consts::PI / 3.0) / (1u64 << ((dm as u32) << 1)) as f64;
+  let mut triples: Vec<(u64, f64, f64)> = Vec::new();
+  for k in 0..n {
+    let u: u64 = t[3 + 2 * k].parse().unwrap_or(0);
+    let bits: u64 = t[4 + 2 * k].parse().unwrap_or(0);
+    let dens = f64::from_bits(bits);
+    let cd = ((63 - u.leading_zeros()) as u8 - 2) >> 1;
+    let nsub = (1u64 << (((dm - cd.min(dm)) as u32) << 1)) as f64;
+    triples.push((u, dens * nsub * apc, dens));
+  }
+  let direct = catch(move || valued_cells_to_moc_with_opt(dm, triples, from, to, asc, strict, no_split, rev).iter().map(|x| (x.start, x.end)).collect::<Vec<(u64, u64)>>());
+  match (direct, got) {
+    (Ok(d), Ok((gd, g))) => {
+      if gd != dm || g != d {
+        rep.corr_break("from_fits_multiordermap does not return the selection of the rows the model decodes", &shown, &format!("depth {} {}", gd, ranges_str(&g)), &format!("depth {} {}", dm, ranges_str(&d)), corr);
+        return false;
+      }
+      true
+    }
+    (Err(_), _) => true, // the selection itself does not accept these values (NaN densities ...): judged by C20
+    (Ok(_), Err(k)) => {
+      rep.corr_break("from_fits_multiordermap rejects a document the byte-level model decodes", &shown, &k, &model.chars().take(200).collect::<String>(), corr);
+      false
+    }
+  }
+}
